@@ -126,6 +126,17 @@ CHECKS = {
          "trace validation with linearization search by TLC; race/deadlock clause observed (Go race detector, deadlines)",
          "data races and deadlocks are observations made while recording, not model-checked; schedules are those the Go "
          "scheduler and the gates produce, not all interleavings"),
+ "C09": ("model_checking",
+         "TLC enumerates the abstract request grammar (7 methods x 15 path shapes x 19 routed sub-resource sets, with one further "
+         "dimension varied per request: 18 parameters x 10 value classes, 45 header variants incl. hostile copy sources, ranges, "
+         "declared lengths of 2^40/2^62, 14 body classes incl. malformed XML and negative part numbers): ~160k requests quick, "
+         "~470k thorough. Each is issued against a prepared s3mem store (versioned bucket with delete markers, a deleted current "
+         "version, fully deleted keys, pending uploads with gaps) and sampled on bolt/multi-fs and under host-bucket, auto-bucket "
+         "and no-versioning options, in a child process with an address-space limit. Every observation (panic, hang, status, body "
+         "kind, error code, canary on the same and another bucket, state unchanged by read-only methods) is judged by TLC "
+         "(spec/TraceReq.tla: WellFormedReply, code/status consistency).",
+         "TLC-enumerated request grammar executed against prepared stores; observations validated by TLC (TraceReq)",
+         "no coverage-guided byte-level fuzzing; panics/hangs/process death are observations recorded into the trace"),
 }
 
 NOT_YET = {}
